@@ -88,7 +88,10 @@ def run(module, prop, tier, plan, describe, assumptions=()):
     mx = os.environ.get("VERIF_MAX_RUNS")  # development aid: truncate every group
     if mx:
         plan = dict(plan, groups=[dict(g, indices=list(g["indices"])[:int(mx)]) for g in plan["groups"]])
-    log_dir = os.path.join(VERIF, "replays", "logs")
+    log_dir = os.path.join(VERIF, "replays", "logs", prop)
+    import shutil
+
+    shutil.rmtree(log_dir, ignore_errors=True)  # worker stderr of this batch only
     os.makedirs(log_dir, exist_ok=True)
     print(f"[{prop}] tier={tier} VERIF_SEED={master} runs={sum(len(g['indices']) for g in plan['groups'])} workers={plan.get('n_workers', 16)}", flush=True)
     total = sum(len(g["indices"]) for g in plan["groups"])
